@@ -498,72 +498,92 @@ def condition_bytes(toks, j, e, var, what):
 
 
 def extract_byte_classes():
+    """Best effort, class by class: a recognised construct gives its byte set, an unrecognised one a note.
+    The authoritative tables come from running the code on every byte (`harness probe`); these are the
+    cross-check, and the source of the reader names of `next_json_value`."""
     out = {}
-    # Reader::eat_whitespace: the arm that calls next()
-    toks = tokenize(open(os.path.join(REPO, "src", "reader.rs")).read())
-    b, e = fn_body(toks, "eat_whitespace", "reader.rs")
-    k = find_seq(toks, ["Some", "("], b)
-    if k < 0 or k > e:
-        raise ExtractError("reader.rs: eat_whitespace has no Some(..) arm")
-    bs, arrow = some_arm(toks, k, e, "reader.rs eat_whitespace")
-    if bs is None:
-        raise ExtractError("reader.rs: eat_whitespace arm matches every byte")
-    body_close = matching_paren(toks, arrow + 2) if toks[arrow + 2][1] == "{" else arrow + 8
-    if find_seq(toks[arrow:body_close + 1], ["self", ".", "next", "("]) < 0:
-        raise ExtractError("reader.rs: eat_whitespace arm does not consume the byte")
-    out["whitespace"] = bs
-    # variables_extractor: the stop arm of the name loop
-    toks = tokenize(open(os.path.join(REPO, "src", "variables_extractor.rs")).read())
-    k = find_seq(toks, ["None", "|", "Some", "("])
-    if k < 0:
-        raise ExtractError("variables_extractor.rs: `None | Some(..)` stop arm not found")
-    bs, arrow = some_arm(toks, k + 2, len(toks), "variables_extractor.rs name loop")
-    if bs is None:
-        raise ExtractError("variables_extractor.rs: stop arm matches every byte")
-    out["var_stop"] = bs
-    # selection::read_function_name and extractor::read_extract_key: `if <cond> { break; }`
-    for key, file, fn in (("fn_name_stop", "selection.rs", "read_function_name"),
-                          ("key_stop", "extractor.rs", "read_extract_key")):
-        toks = tokenize(open(os.path.join(REPO, "src", file)).read())
-        b, e = fn_body(toks, fn, file)
+
+    def attempt(key, fn):
+        try:
+            out[key] = fn()
+        except ExtractError as e:
+            out[key] = {"unrecognised": str(e)}
+        except IndexError:
+            out[key] = {"unrecognised": "token stream ended inside the construct"}
+
+    def ws():
+        # Reader::eat_whitespace: the arm that calls next()
+        toks = tokenize(open(os.path.join(REPO, "src", "reader.rs")).read())
+        b, e = fn_body(toks, "eat_whitespace", "reader.rs")
         k = find_seq(toks, ["Some", "("], b)
-        if k < 0 or k > e or toks[k + 2][0] != "id":
-            raise ExtractError(f"{file}: {fn}: Some(ch) arm not found")
-        var = toks[k + 2][1]
-        i = find_seq(toks, ["if"], k)
-        if i < 0 or i > e:
-            raise ExtractError(f"{file}: {fn}: stop condition not found")
-        j = i + 1
-        c = j
-        while not (toks[c][0] == "sym" and toks[c][1] == "{"):
-            c += 1
-        if [t for _, t in toks[c + 1:c + 3]] != ["break", ";"]:
-            raise ExtractError(f"{file}: {fn}: the condition does not guard a break")
-        out[key] = condition_bytes(toks, j, c, var, f"{file} {fn}")
-    # json_parser::next_json_value: the dispatch arms
-    toks = tokenize(open(os.path.join(REPO, "src", "json_parser.rs")).read())
-    b, e = fn_body(toks, "next_json_value", "json_parser.rs", find_seq(toks, ["impl", "<", "R", ":", "Read", ">", "JsonParser"]))
-    arms = []
-    k = b
-    while True:
-        k = find_seq(toks, ["Some", "("], k + 1)
         if k < 0 or k > e:
-            break
-        if toks[k - 1][1] == "(" and toks[k - 2][1] == "Ok":
-            continue  # the Ok(Some(..)) of a result
-        bs, arrow = some_arm(toks, k, e, "json_parser.rs next_json_value")
+            # `while matches!(self.peek()?, Some(b' ' | ..))`-style
+            raise ExtractError("reader.rs: eat_whitespace has no Some(..) arm")
+        bs, arrow = some_arm(toks, k, e, "reader.rs eat_whitespace")
         if bs is None:
-            break  # Some(ch) => error arm: everything else
-        seg = toks[arrow:arrow + 16]
-        readers = [seg[q + 2][1] for q in range(len(seg) - 3)
-                   if seg[q][1] == "self" and seg[q + 1][1] == "." and seg[q + 2][1].startswith("read_")]
-        if len(readers) != 1:
-            raise ExtractError("json_parser.rs: next_json_value arm without a single read_* call")
-        arms.append((bs, readers[0]))
-        k = arrow
-    if len(arms) < 5:
-        raise ExtractError("json_parser.rs: dispatch arms of next_json_value not found")
-    out["value_start"] = arms
+            raise ExtractError("reader.rs: eat_whitespace arm matches every byte")
+        return sorted(bs)
+
+    def var_stop():
+        toks = tokenize(open(os.path.join(REPO, "src", "variables_extractor.rs")).read())
+        k = find_seq(toks, ["None", "|", "Some", "("])
+        if k < 0:
+            raise ExtractError("variables_extractor.rs: `None | Some(..)` stop arm not found")
+        bs, arrow = some_arm(toks, k + 2, len(toks), "variables_extractor.rs name loop")
+        if bs is None:
+            raise ExtractError("variables_extractor.rs: stop arm matches every byte")
+        return sorted(bs)
+
+    def cond(file, fn):
+        def f():
+            toks = tokenize(open(os.path.join(REPO, "src", file)).read())
+            b, e = fn_body(toks, fn, file)
+            k = find_seq(toks, ["Some", "("], b)
+            if k < 0 or k > e or toks[k + 2][0] != "id":
+                raise ExtractError(f"{file}: {fn}: Some(ch) arm not found")
+            var = toks[k + 2][1]
+            i = find_seq(toks, ["if"], k)
+            if i < 0 or i > e:
+                raise ExtractError(f"{file}: {fn}: stop condition not found")
+            j = i + 1
+            c = j
+            while not (toks[c][0] == "sym" and toks[c][1] == "{"):
+                c += 1
+            if [t for _, t in toks[c + 1:c + 3]] != ["break", ";"]:
+                raise ExtractError(f"{file}: {fn}: the condition does not guard a break")
+            return sorted(condition_bytes(toks, j, c, var, f"{file} {fn}"))
+        return f
+
+    def value_start():
+        toks = tokenize(open(os.path.join(REPO, "src", "json_parser.rs")).read())
+        b, e = fn_body(toks, "next_json_value", "json_parser.rs", find_seq(toks, ["impl", "<", "R", ":", "Read", ">", "JsonParser"]))
+        arms = []
+        k = b
+        while True:
+            k = find_seq(toks, ["Some", "("], k + 1)
+            if k < 0 or k > e:
+                break
+            if toks[k - 1][1] == "(" and toks[k - 2][1] == "Ok":
+                continue  # the Ok(Some(..)) of a result
+            bs, arrow = some_arm(toks, k, e, "json_parser.rs next_json_value")
+            if bs is None:
+                break  # Some(ch) => error arm: everything else
+            seg = toks[arrow:arrow + 16]
+            readers = [seg[q + 2][1] for q in range(len(seg) - 3)
+                       if seg[q][1] == "self" and seg[q + 1][1] == "." and seg[q + 2][1].startswith("read_")]
+            if len(readers) != 1:
+                raise ExtractError("json_parser.rs: next_json_value arm without a single read_* call")
+            arms.append([sorted(bs), readers[0]])
+            k = arrow
+        if len(arms) < 5:
+            raise ExtractError("json_parser.rs: dispatch arms of next_json_value not found")
+        return arms
+
+    attempt("whitespace", ws)
+    attempt("var_stop", var_stop)
+    attempt("fn_name_stop", cond("selection.rs", "read_function_name"))
+    attempt("key_stop", cond("extractor.rs", "read_extract_key"))
+    attempt("value_start", value_start)
     return out
 
 
@@ -713,30 +733,17 @@ def main():
              f"def onErrorDefault : String := {lean_str(cli['on_error_default'])}",
              f"def skipDefault : Nat := {cli['skip_default']}",
              f"def rowSeparatorDefault : List Nat := {codes(cli['row_separator_default'])}\n",
-             "end Jawk.Generated\n"]
-    ch3 = write_if_changed(os.path.join(OUT, "Presets.lean"), "\n".join(lines))
-    # ByteClasses
-    def blist(bs):
-        return "[" + ", ".join(str(x) for x in sorted(bs)) + "]"
-    lines = [hdr, "namespace Jawk.Generated\n",
-             "/-- `Reader::eat_whitespace`: the bytes it skips -/",
-             f"def whitespaceBytes : List Nat := {blist(bc['whitespace'])}\n",
-             "/-- `variables_extractor`: the bytes that end a `:name` / `@name` -/",
-             f"def varStopBytes : List Nat := {blist(bc['var_stop'])}\n",
-             "/-- `selection::read_function_name`: the bytes that end a function name -/",
-             f"def fnNameStopBytes : List Nat := {blist(bc['fn_name_stop'])}\n",
-             "/-- `extractor::read_extract_key`: the bytes that end a bare `.key` -/",
-             f"def keyStopBytes : List Nat := {blist(bc['key_stop'])}\n",
-             "/-- `next_json_value`: (bytes of the arm, name of the reader it calls as code points), in source order -/",
-             "def valueStartArms : List (List Nat × List Nat) := [",
-             ",\n".join(f"  ({blist(bs)}, {codes(r)})" for bs, r in bc["value_start"]),
-             "]\n",
              "/-- JSON `print_string`: characters in this closed range are written as they are -/",
              f"def printPlainRange : Nat × Nat := ({plain_lo}, {plain_hi})\n",
              "/-- JSON `print_string`: with `utf8_strings`, characters above this one are written as they are -/",
              f"def printUtf8Above : Nat := {utf8_above}\n",
              "end Jawk.Generated\n"]
-    ch5 = write_if_changed(os.path.join(OUT, "ByteClasses.lean"), "\n".join(lines))
+    ch3 = write_if_changed(os.path.join(OUT, "Presets.lean"), "\n".join(lines))
+    # byte classes read from the control flow: cross-check material for extract/byte_classes.py
+    syn_path = os.environ.get("BYTECLASSES_SYNTACTIC", os.path.join(OUT, "..", "..", "..", "build", "byteclasses-syntactic.json"))
+    os.makedirs(os.path.dirname(syn_path), exist_ok=True)
+    open(syn_path, "w").write(json.dumps(bc, indent=1))
+    ch5 = False
     # the same table for the Rust harness (generator of aliases / arities)
     def rust_str(x):
         return '"' + x.replace('\\', '\\\\').replace('"', '\\"') + '"'
@@ -748,9 +755,10 @@ def main():
         rl.append(f"    ({rust_str(f['name'])}, &[{al}], {f['min']}, {mx}),")
     rl.append("];")
     ch4 = write_if_changed(os.path.join(OUT, "..", "..", "..", "harness", "src", "gen_table.rs"), "\n".join(rl) + "\n")
-    summary = {"functions": len(funcs), "names": len(allnames),
+    unrec = sorted(k for k, v in bc.items() if isinstance(v, dict))
+    summary = {"byte_classes_unrecognised": unrec, "functions": len(funcs), "names": len(allnames),
                "examples": sum(len(f["examples"]) for f in funcs), "examples_skipped": skipped,
-               "changed": [n for n, c in (("FunctionTable", ch1), ("DocExamples", ch2), ("Presets", ch3), ("harness/gen_table.rs", ch4), ("ByteClasses", ch5)) if c]}
+               "changed": [n for n, c in (("FunctionTable", ch1), ("DocExamples", ch2), ("Presets", ch3), ("harness/gen_table.rs", ch4)) if c]}
     print("EXTRACT-OK " + json.dumps(summary))
 
 
